@@ -16,6 +16,9 @@ from simlib.props import c02
 
 ID = "C15"
 LEVEL = "exploration"
+# a worker that hangs or blows up in native code while running a case of this
+# property is re-run in a sandboxed interpreter; a second hang is the verdict
+HANG_IS_VIOLATION = True
 TECHNIQUE = ("deterministic simulation of the Rust parallel_map: a harness "
              "binary (path dependency on the working tree) gates the mapped "
              "function and lets a seeded controller decide, at quiescence, "
